@@ -27,6 +27,14 @@ def fmtOf : Sexp → Option (String → String → List (String × String) → S
   | .list [.atom "fmt", .atom "default"] => some (defaultFmt Gen.defaultMap)
   | .list [.atom "fmt", .atom "exec", .atom "es"] => some (defaultFmt Gen.esMap)
   | .list [.atom "fmt", .atom "exec", .atom "en"] => some (defaultFmt Gen.enMap)
+  | .list [.atom "fmt", .atom "i18nh", .list hist, .list ctx] => do
+    let hist ← hist.mapM fun h => match h with
+      | .atom "-" => some ({ langs := [("en", Gen.enMap), ("es", Gen.esMap)], dflt := "en" } : Install)
+      | k => do pure { langs := [("en", Gen.enMap), ("es", Gen.esMap)], dflt := "en", key := some (← k.str?) }
+    let ctx ← ctx.mapM fun kv => match kv with
+      | .list [k, l] => do pure (← k.str?, ← l.str?)
+      | _ => none
+    pure (installedFmt (defaultFmt Gen.defaultMap) hist ctx)
   | .list [.atom "fmt", .atom "i18n", .atom "-"] => some (i18nFmt [("en", Gen.enMap), ("es", Gen.esMap)] "en" none)
   | .list [.atom "fmt", .atom "i18n", l] => do
     let l ← l.str?
